@@ -37,6 +37,9 @@ Definition robs_eqb (a b : robs) : bool :=
   let '(s, o, p, o2, t) := a in let '(s', o', p', o2', t') := b in
   list_eqb N.eqb s s' && cobs_eqb o o' && list_eqb (list_eqb N.eqb) p p' && cobs_eqb o2 o2' && list_eqb N.eqb t t'.
 
+(* a call sequence may also contain further recover_from_wal() calls on the live coordinator *)
+Inductive xstep := XS (s : step_in) | XRecover.
+
 (* ---------------------------------------------------------------- the property oracle *)
 (* [recs] = the records of the real log file with their END offsets, as decoded by the real
    deserializer; the records that survive a crash at byte k are those with end <= k *)
@@ -55,11 +58,11 @@ Definition left_preparing (es : list tentry) (tx : N) : bool :=
 
 (* the votes the live coordinator held when it declared the transaction Prepared: taken from
    the implementation's own live observations *)
-Definition live_votes_at_prepared (steps : list step_in) (outs : list step_out) (lives : list cobs)
+Definition live_votes_at_prepared (steps : list xstep) (outs : list step_out) (lives : list cobs)
     (tx : N) : option (list (option vote)) :=
-  let fix go (i : nat) (ss : list step_in) (os : list step_out) : option (list (option vote)) :=
+  let fix go (i : nat) (ss : list xstep) (os : list step_out) : option (list (option vote)) :=
     match ss, os with
-    | Vote t _ _ :: ss', [2; 1] :: os' =>
+    | XS (Vote t _ _) :: ss', [2; 1] :: os' =>
         if N.eqb t tx then
           match nth_error lives (S i) with
           | Some (txs, _) => match nth_error txs (N.to_nat tx) with Some (Some (_, vs)) => Some vs | _ => None end
@@ -81,7 +84,7 @@ Definition live_votes_at_prepared (steps : list step_in) (outs : list step_out) 
 Definition is_ok (r : list N) : bool := list_eqb N.eqb r [0].
 Definition is_err (r : list N) : bool := match r with 1 :: _ => true | _ => false end.
 
-Definition oracle_tx (steps : list step_in) (outs : list step_out) (lives : list cobs)
+Definition oracle_tx (steps : list xstep) (outs : list step_out) (lives : list cobs)
     (es : list tentry) (ro : robs) (tx : N) : bool :=
   let '(stats, (o0, locks0), probes, (o1, _), touts) := ro in
   let here := nth (N.to_nat tx) o0 None in
@@ -110,7 +113,7 @@ Definition oracle_tx (steps : list step_in) (outs : list step_out) (lives : list
     match here with None => true | Some _ => false end
   else true.
 
-Definition oracle_at (T : N) (steps : list step_in) (outs : list step_out) (lives : list cobs)
+Definition oracle_at (T : N) (steps : list xstep) (outs : list step_out) (lives : list cobs)
     (recs : list (N * tentry)) (k : N) (ro : option robs) : bool :=
   match ro with
   | None => false
@@ -122,7 +125,7 @@ Definition oracle_at (T : N) (steps : list step_in) (outs : list step_out) (live
 
 (* one generation as seen on the implementation *)
 Definition gen_rec :=
-  (N * list step_in * list step_out * list cobs * list N * N * list byte * list (N * tentry)
+  (N * list xstep * list step_out * list cobs * list N * N * list byte * list (N * tentry)
    * list (N * N * N * option robs) * N)%type.
    (* clock at start, steps, replies, live observations (n+1), file length after each step,
       file length after open, file bytes, decoded records with end offsets,
@@ -143,11 +146,20 @@ Variable T : N.
 Notation mstep := (dstep (ser_of t) crc32u).
 Notation mrestart := (restart (deser_of t) crc32u gen_tx_tail_repair gen_vote_scan_live gen_vote_first_wins).
 
-Fixpoint run_obs (d : dcoord) (steps : list step_in) : dcoord * list step_out * list cobs * list N :=
+Definition xstep_run (d : dcoord) (x : xstep) : dcoord * step_out :=
+  match x with
+  | XS s => mstep d s
+  | XRecover =>
+      match recover_live (deser_of t) crc32u gen_vote_scan_live gen_vote_first_wins d with
+      | Some (d', stats) => (d', 4 :: stats)
+      | None => (d, [1; 7])
+      end
+  end.
+Fixpoint run_obs (d : dcoord) (steps : list xstep) : dcoord * list step_out * list cobs * list N :=
   match steps with
   | [] => (d, [], [], [])
   | s :: r =>
-      let '(d1, out) := mstep d s in
+      let '(d1, out) := xstep_run d s in
       let '(d2, outs, os, es) := run_obs d1 r in
       (d2, out :: outs, observe T (co d1) :: os, N.of_nat (length (file d1)) :: es)
   end.
